@@ -1,5 +1,10 @@
 """C01 — Mendelian fidelity of the seven mating protocols (and of the mat_*/dense_* utilities).
 
+Round 5: the PARENTS' family labels in narrow integer dtypes (int8 .. uint64) with the family counter at / beyond the limit of
+that dtype, variant metadata in narrow integer dtypes, `cycle` histories (4-7 mate() calls with 15-50 crosses on one object:
+the counter GROWS past 127 / 255), numpy integer scalars as counters, counters beyond int32 / uint32 / 2^53, parents that are a
+grouped matrix.  Lean: Mating.mateSeq (histories) + history_calls / history_family_labels, labelsInDtype (label dtype).
+
 Round 4: the per-cross product nmating*nprogeny is formed in int64 by the repaired code (D70): its corpus cases are
 regression cases that must pass, mutants undo the repair in memory; new case kinds (unsorted / multi-chromosome variant
 metadata, strided xoprob, parent label forms, constructor kwargs, deep selfing, > 32767 lines); scripted generators no
@@ -305,6 +310,12 @@ def _build_pgmat(case):
     if meta == "alleles":
         kw.update(vrnt_hapalt=_obj(["ACGT"[j % 4] for j in range(nv)]),
                   vrnt_hapref=_obj(["TGCA"[j % 4] for j in range(nv)]))
+    gdt = case.get("gdtype", "int64")                         # dtype in which the PARENTS store their family labels
+    if case.get("vdtype") and "vrnt_chrgrp" in kw:            # narrow integer dtypes of the variant metadata
+        d1, d2 = case["vdtype"]
+        kw["vrnt_chrgrp"] = kw["vrnt_chrgrp"].astype(d1)
+        kw["vrnt_phypos"] = kw["vrnt_phypos"].astype(d2)
+        kw["vrnt_hapgrp"] = kw["vrnt_hapgrp"].astype(d2)
     ptaxa = "bare" if case.get("bare_taxa") else case.get("ptaxa", "both")
     if ptaxa == "bare":
         g = D(mat=mat, vrnt_xoprob=xo, **kw)                  # parents without names / groups
@@ -312,13 +323,16 @@ def _build_pgmat(case):
         g = D(mat=mat, taxa=_obj([f"par{t:02d}" for t in range(ntaxa)]), vrnt_xoprob=xo, **kw)
     elif ptaxa == "unsorted":                                 # family labels neither sorted nor grouped, duplicate names
         g = D(mat=mat, taxa=_obj([f"par{(5 * t) % 3:02d}" for t in range(ntaxa)]),
-              taxa_grp=numpy.array([(7 * t + 2) % 3 for t in range(ntaxa)], dtype="int64"), vrnt_xoprob=xo, **kw)
+              taxa_grp=numpy.array([(7 * t + 2) % 3 for t in range(ntaxa)], dtype=gdt), vrnt_xoprob=xo, **kw)
     else:
         g = D(mat=mat, taxa=_obj([f"par{t:02d}" for t in range(ntaxa)]),
-              taxa_grp=numpy.array([t // 2 for t in range(ntaxa)], dtype="int64"),
+              taxa_grp=numpy.array([(t // 2) % 100 if "gdtype" in case else t // 2 for t in range(ntaxa)], dtype=gdt),
               vrnt_xoprob=xo, **kw)
     if meta not in ("none", "unsorted") and nv > 0:
         g.group_vrnt()
+    if case.get("pgrouped") and ptaxa == "both":
+        g.group_taxa()          # labels t // 2 and names par00, par01, ... are sorted already: the row order stays, the
+        #                         parents now carry taxa_grp_name / _stix / _spix / _len (as every progeny matrix does)
     return g, xo
 
 
@@ -394,7 +408,14 @@ class C01(Prop):
             "and > 32767 lines to self; variant metadata neither sorted nor grouped (no group arrays), 3-6 chromosomes incl. "
             "single-marker ones (with and without 0.5 at chromosome starts), vrnt_xoprob as a strided / reversed float64 view, "
             "parents with names but no family labels / unsorted labels and duplicate names, constructor keywords through "
-            "mate(**kwargs), selfing depth 4-8.  Non-trivial = at least one crossover drawn, at least one progeny and a cross "
+            "mate(**kwargs), selfing depth 4-8.  Round-5 kinds: the PARENTS keep their family labels (taxa_grp) in int8 / uint8 / int16 / "
+            "uint16 / int32 / uint32 / uint64 while the family counter stands at, just below or beyond the limit of that dtype "
+            "(126 / 127 / 254 / 32766 / 2^31-2 / 2^32-1 / twice the limit), variant metadata (chrgrp / phypos / hapgrp) in "
+            "narrow integer dtypes; `cycle` histories = 4-7 mate() calls with 15-50 crosses each on ONE object so that the "
+            "family counter grows from 0-20 past 127 / 255 (parents' labels int8 / uint8 / int16, some cycles use the previous "
+            "progeny as parents); counters given as numpy.int64 / int32 scalars; progeny / family counters 2^31-2, 2^32-3, "
+            "2^53+1; parents that are a grouped matrix (group_taxa() called: taxa_grp_name / _stix / _spix / _len present) with "
+            "labels reaching the family counter.  Non-trivial = at least one crossover drawn, at least one progeny and a cross "
             "with two distinct parents (or a heterozygous selfed parent)")
     TRUSTED = ["numpy.repeat / arange / stack / lexsort / unique as modelled (Np.repeatEach, Np.arange, List.zip, "
                "Np.stableSort, Np.uniqueRuns); Python str order = code-point lexicographic order",
@@ -410,6 +431,12 @@ class C01(Prop):
                    "generation order of names is demanded only while progeny_counter + count <= 10^7 (7-digit zero fill); "
                    "beyond that the Spec demands a permutation with every name in its family, the model (and "
                    "order_characterised) the string-sorted arrangement (see order_preserved_counterexample)",
+                   "family labels are demanded as the NUMBERS family_counter + cross index whatever integer dtype the progeny "
+                   "matrix stores them in and whatever dtype the parents use; fc + ncross <= 2^63 (the code stores int64: "
+                   "family_labels_int64_exact_partial).  The dtype of the parents' labels / variant metadata, numpy-scalar "
+                   "counters and grouped parents have no counterpart in the Lean model (the code ignores them; the model takes "
+                   "numbers): for these classes the evidence is correspondence + Spec on the real objects only; histories are "
+                   "in the model (Mating.mateSeq, history_calls)",
                    "aliasing between the progeny matrix and the parental matrix, and a later call changing an earlier "
                    "result, count as violations (a progeny that changes after it was returned is no longer the mosaic it was)"]
     _mask_known = False      # set while a self-test mutant runs: the known finding must not count as a kill
@@ -523,8 +550,8 @@ class C01(Prop):
         elif r < 0.9:
             pc = 10 ** 7 - rng.randint(0, 12)
         else:
-            pc = rng.choice([10 ** 7 + rng.randint(0, 5), 99999995, 123456789])
-        fc = rng.choice([0, 0, 1, 7, 98, 126, 254, 10 ** 6])
+            pc = rng.choice([10 ** 7 + rng.randint(0, 5), 99999995, 123456789, 2 ** 31 - 2, 2 ** 32 - 3, 2 ** 53 + 1])
+        fc = rng.choice([0, 0, 1, 7, 98, 126, 254, 10 ** 6, 2 ** 31 - 1, 2 ** 32 - 2, 2 ** 53 + 1])
         spec = {"mode": mode, "seed": rng.randrange(2 ** 31)}
         if mode.startswith("scripted"):
             spec["den"] = den
@@ -538,9 +565,31 @@ class C01(Prop):
                     xs[st] = Fraction(1, 2)
                     st += n_
                 c["xo"] = canon.enc(xs)
+        if rng.random() < 0.3:
+            self._label_dtype(rng, c)
+        if rng.random() < 0.2:
+            c["pgrouped"] = True       # the parents are a GROUPED matrix (taxa_grp_name / _stix / _spix / _len present)
         if not plain and rng.random() < 0.4:
             self._options(rng, c, neg)
         return c
+
+    GDTYPES = ["int8", "int8", "int8", "uint8", "uint8", "int16", "uint16", "int32", "uint32", "uint64", "int64"]
+
+    @classmethod
+    def _label_dtype(cls, rng, c):
+        """round 5: the PARENTS store their family labels in a narrow integer dtype (any integer dtype is legal for
+        taxa_grp) while the family counter of the protocol object stands next to / beyond the range of that dtype: the
+        labels of the progeny are family_counter + cross index whatever the parents' labels look like"""
+        gdt = rng.choice(cls.GDTYPES)
+        c["gdtype"] = gdt
+        lim = int(numpy.iinfo(gdt).max)
+        r = rng.random()
+        if gdt not in ("int64", "uint64") and r < 0.7:
+            c["fc"] = max(0, lim - rng.randint(-2, 3))           # the labels of this call cross (or lie beyond) the limit
+        elif gdt not in ("int64", "uint64") and r < 0.8:
+            c["fc"] = 2 * (lim + 1) + rng.randint(0, 5)           # beyond the unsigned range of the same width as well
+        if rng.random() < 0.3 and c.get("meta") != "none":
+            c["vdtype"] = rng.choice([["int8", "int16"], ["uint8", "int32"], ["int16", "uint16"], ["int32", "uint32"]])
 
     @staticmethod
     def _chr_sizes(rng, nv):
@@ -578,6 +627,8 @@ class C01(Prop):
             c["xoorder"] = rng.choice(["view", "rev"])
         if rng.random() < 0.15:
             c["ctor_kwargs"] = True
+        if rng.random() < 0.2:
+            c["ctr_np"] = rng.choice(["int64", "int32"])
 
     def _narrow_case(self, rng, proto=None, force=None):
         """xconfig stored in a narrow integer dtype and more matings / progeny / candidate taxa than that dtype
@@ -682,7 +733,8 @@ class C01(Prop):
         steps = []
         for k in range(rng.choice([2, 2, 3])):
             if k == 0:
-                st = {f: first[f] for f in ("geno", "xo", "xconfig", "nmating", "nprogeny", "nself", "meta", "chr") if f in first}
+                st = {f: first[f] for f in ("geno", "xo", "xconfig", "nmating", "nprogeny", "nself", "meta", "chr", "gdtype",
+                                            "vdtype", "pgrouped") if f in first}
             else:
                 prev = steps[-1]
                 pcount = self._count(prev)
@@ -738,7 +790,45 @@ class C01(Prop):
         c = {"kind": "hist", "proto": proto, "steps": steps, "pc": first["pc"], "fc": first["fc"], "rng": first["rng"]}
         if rng.random() < 0.15:
             c["rng_none"] = True
+        if rng.random() < 0.15:
+            c["ctr_np"] = rng.choice(["int64", "int32"])
         return c
+
+    def _cycle_case(self, rng, proto=None, gdtype=None):
+        """round 5: a breeding programme re-uses ONE protocol object cycle after cycle: 4-7 mate() calls with 15-50
+        crosses each, so that the family counter GROWS (from a small start) past 127 / 255 during the history (and the
+        progeny counter past a few hundred); the parents keep their family labels in a narrow dtype; in some cycles
+        the progeny of the previous cycle are the parents of the next one (`chain`).  One or two markers keep it cheap."""
+        proto = proto or rng.choice(list(PROTOS))
+        npar = PROTOS[proto][1]
+        gdt = gdtype or rng.choice(["int8", "int8", "uint8", "int16", "int64"])
+        ntaxa = rng.choice([3, 5, 12])
+        nv = rng.choice([1, 1, 2])
+        xo = canon.enc([Fraction(1, 2)] + [rng.choice([Fraction(0), Fraction(1, 4)]) for _ in range(nv - 1)])
+        goal = {"int8": 127, "uint8": 255}.get(gdt, rng.choice([127, 255]))
+        nstep = rng.choice([4, 5, 6, 7])
+        fc = rng.choice([0, 0, 3, 20])
+        per = (goal + 20 - fc) // (nstep - 1) + 1          # the limit is crossed in the last but one call or earlier
+        steps, pcount = [], 0
+        for k in range(nstep):
+            nc = max(1, per + rng.randint(-3, 3))
+            chain = k > 0 and pcount >= 1 and rng.random() < 0.3
+            src = pcount if chain else ntaxa
+            st = {"geno": None if chain else self._geno(rng, ntaxa, nv, "copy"), "xo": xo,
+                  "xconfig": [[rng.randrange(src) for _ in range(npar)] for _ in range(nc)],
+                  "nmating": rng.choice([1, 1, [rng.randint(1, 2) for _ in range(nc)]]),
+                  "nprogeny": rng.choice([1, [rng.randint(0, 2) for _ in range(nc)], [rng.randint(1, 2) for _ in range(nc)]]),
+                  "nself": rng.choice([0, 0, 0, 1]), "meta": "none", "gdtype": gdt}
+            if k > 0:
+                st["reuse"] = "chain" if chain else rng.choice(["new", "same"])
+                if st["reuse"] == "same" and steps[-1].get("reuse") != "chain" and steps[-1]["geno"] is not None:
+                    st["geno"] = steps[-1]["geno"]
+                elif st["reuse"] == "same":
+                    st["reuse"] = "new"
+            pcount = self._count(st)
+            steps.append(st)
+        return {"kind": "hist", "proto": proto, "steps": steps, "pc": rng.choice([0, 5, 9999000]), "fc": fc,
+                "rng": {"mode": rng.choice(["pcg64", "scripted"]), "seed": rng.randrange(2 ** 31), "den": 64}}
 
     def _bad_case(self, rng):
         c = self._case(rng, plain=True)
@@ -951,6 +1041,35 @@ class C01(Prop):
             npar_ = PROTOS[k][1]
             xc_ = [list(range(npar_)), [3, 2, 1, 0][:npar_]] if npar_ < 3 else [list(range(npar_)), [3, 3, 3, 3][:npar_]]
             out.append(self._mk(k, g4, xo6, xc_, [1, 2], 2, [5, 6, 8, 5][i], 0, 0, sc(420 + i)))
+        # --- round 5
+        # (i) the parents keep their family labels in a narrow integer dtype and the family counter stands at / beyond
+        #     the limit of that dtype (given to the constructor), every protocol; then the counter GROWN past the limit
+        #     by a history of 4-7 cycles on one object (every protocol, int8 and uint8 labels)
+        for i, k in enumerate(PROTOS):
+            gd_, fc_ = [("int8", 126), ("uint8", 254), ("int16", 32766), ("int8", 300), ("int32", 2 ** 31 - 2),
+                        ("uint16", 65535), ("uint32", 2 ** 32 - 1)][i]
+            c_ = self._mk(k, g4, xo6, [list(range(PROTOS[k][1])), [3, 1, 2, 0][:PROTOS[k][1]], [2, 2, 0, 1][:PROTOS[k][1]]],
+                          [1, 2, 1], [2, 1, 1], i % 2, 3, fc_, sc(500 + i))
+            c_["gdtype"] = gd_
+            c_["vdtype"] = [["int8", "int16"], ["uint8", "int32"]][i % 2]
+            if i % 3 == 0:
+                c_["ctr_np"] = ["int64", "int32"][i % 2]
+            c_["pgrouped"] = i % 2 == 0
+            out.append(c_)
+        #     counters beyond int32 / uint32 / the integers a float64 holds exactly (Python ints are unbounded)
+        for i, k in enumerate(PROTOS):
+            c_ = self._mk(k, g4, xo6, [list(range(PROTOS[k][1])), [3, 1, 2, 0][:PROTOS[k][1]]], [1, 2], [2, 1], 0,
+                          [2 ** 31 - 2, 2 ** 32 - 3, 2 ** 53 + 1][i % 3], [2 ** 53 + 1, 2 ** 31 - 1, 2 ** 32 - 2][i % 3], sc(540 + i))
+            c_["pgrouped"] = i % 2 == 1
+            out.append(c_)
+        #     grouped parents whose own labels (0, 0, 1, 1) reach / exceed the family counter (0 / 1)
+        for i, k in enumerate(PROTOS):
+            c_ = self._mk(k, g4, xo6, [list(range(PROTOS[k][1])), [3, 1, 2, 0][:PROTOS[k][1]]], [1, 2], [2, 1], i % 2, 0, i % 2,
+                          sc(560 + i))
+            c_["pgrouped"] = True
+            out.append(c_)
+        for i, k in enumerate(PROTOS):
+            out.append(self._cycle_case(random.Random(520 + i), k, ["int8", "uint8"][i % 2]))
         out.append({"kind": "util", "fn": "meiosis", "module": "core", "geno": g4, "xo": canon.enc(xo6),
                     "sel": [3, 0, 0], "rng": sc(30)})
         out.append({"kind": "util", "fn": "dh", "module": "core", "geno": g4, "xo": canon.enc(xo6),
@@ -1018,6 +1137,8 @@ class C01(Prop):
                 out.append(self._wide_case(rng, pr))
             elif r < 0.365:
                 out.append(self._long_case(rng))
+            elif r < 0.395:
+                out.append(self._cycle_case(rng, pr))
             else:
                 out.append(self._case(rng, pr, tier))
         return out
@@ -1097,15 +1218,18 @@ class C01(Prop):
     def _protocol(modname, cls, case, rng):
         """the protocol object; with `rng_none` it is built with rng=None and must pick up the module's
         `global_prng` (which is the recording generator for the duration of the case)"""
+        pc, fc = case["pc"], case["fc"]
+        if case.get("ctr_np"):                 # the counters are `Integral`: numpy integer scalars are legal
+            pc, fc = numpy.int64(pc), (numpy.int64(fc) if case["ctr_np"] == "int64" or fc >= 2 ** 30 else numpy.int32(fc))
         if case.get("rng_none"):
             old = modname.global_prng
             modname.global_prng = rng
             try:
-                yield cls(progeny_counter=case["pc"], family_counter=case["fc"], rng=None)
+                yield cls(progeny_counter=pc, family_counter=fc, rng=None)
             finally:
                 modname.global_prng = old
         else:
-            yield cls(progeny_counter=case["pc"], family_counter=case["fc"], rng=rng)
+            yield cls(progeny_counter=pc, family_counter=fc, rng=rng)
 
     @staticmethod
     def _xconfig(step, npar):
@@ -1518,11 +1642,12 @@ class C01(Prop):
                             if isinstance(st[k], list):
                                 c2[k] = st[k][:j] + st[k][j + 1:]
                         yield dict(case, steps=steps[:i] + [c2] + steps[i + 1:])
-            if case.get("rng_none"):
-                yield {k: v for k, v in case.items() if k != "rng_none"}
+            for opt in ("rng_none", "ctr_np"):
+                if case.get(opt):
+                    yield {k: v for k, v in case.items() if k != opt}
             return
         for opt in ("xdtype", "xorder", "cdtype", "gorder", "nself_np", "miscout", "rng_none", "bare_taxa", "ptaxa", "xoorder",
-                    "ctor_kwargs"):
+                    "ctor_kwargs", "vdtype", "gdtype", "ctr_np", "pgrouped"):
             if opt in case:                               # drop a rarely used argument form
                 yield {k: v for k, v in case.items() if k != opt}
         xc = case["xconfig"]
@@ -1596,7 +1721,7 @@ class C01(Prop):
             """mutants named `[rN_]<protocol>_...` edit that protocol's class (or its module's imported names) only;
             names containing `int16` / `blockwise` / `column_blocks` are about sizes (very large cases are evaluated)"""
             parts = name.split("_")
-            if parts[0] in ("r3", "r4"):
+            if parts[0] in ("r3", "r4", "r5"):
                 parts = parts[1:]
             heavy = any(t in name for t in ("int16", "blockwise", "column_blocks"))
             return ({parts[0]} if parts[0] in PROTOS else None, heavy)
@@ -1803,7 +1928,33 @@ class C01(Prop):
         FLOAT32 = ("rnd = rng.random(gshape, dtype = numpy.float32) if isinstance(rng, numpy.random.Generator) "
                    "else rng.uniform(0, 1, gshape)")
         REP = "numpy.repeat(nprogeny, nmating)"
+        LBL = "dtype = 'int64'"
+        LBLP = "dtype = ('int64' if pgmat.taxa_grp is None else pgmat.taxa_grp.dtype)"
         ms = [
+            # -- round 5: one per class of inputs added in round 5
+            #    family labels built in the dtype of the PARENTS' labels (narrow parental taxa_grp x counter at its limit)
+            ("r5_2w_family_labels_in_parental_label_dtype", src_mutant(cls("2w"), "mate", LBL, LBLP, "last")),
+            ("r5_3wdh_family_labels_in_parental_label_dtype", src_mutant(cls("3wdh"), "mate", LBL, LBLP, "last")),
+            #    the family counter accumulates in int8 once a call has been made (grown counter: histories of cycles)
+            ("r5_3w_family_counter_accumulates_in_int8", src_mutant(cls("3w"), "mate",
+                "self.family_counter += nfam", "self.family_counter += numpy.int8(nfam)")),
+            #    numpy integer scalars as counters
+            ("r5_2wdh_names_restart_unless_counter_is_python_int", src_mutant(cls("2wdh"), "mate",
+                ["self.progeny_counter,               # start progeny number (inclusive)",
+                 "self.progeny_counter + progcnt      # stop progeny number (exclusive)"],
+                ["(self.progeny_counter if isinstance(self.progeny_counter, int) else 0),   # start",
+                 "(self.progeny_counter if isinstance(self.progeny_counter, int) else 0) + progcnt  # stop"])),
+            #    counters beyond int32 / beyond the integers a float64 holds exactly
+            ("r5_3w_names_from_int32_arange", src_mutant(cls("3w"), "mate",
+                "for i in riter]", "for i in numpy.arange(riter.start, riter.stop, dtype = 'int32')]")),
+            ("r5_4wdh_family_labels_through_float64", src_mutant(cls("4wdh"), "mate",
+                "dtype = 'int64'\n                ),", "dtype = 'float64'\n                ).astype('int64'),", "last")),
+            #    grouped parents (group metadata present on the parental matrix)
+            ("r5_2w_family_labels_start_after_grouped_parents_labels", src_mutant(cls("2w"), "mate",
+                "nfam = len(xconfig)                     # calculate number of families\n",
+                "nfam = len(xconfig)\n"
+                "        if pgmat.taxa_grp_name is not None and len(pgmat.taxa_grp_name) > 0:\n"
+                "            self.family_counter = max(self.family_counter, int(pgmat.taxa_grp_name.max()) + 1)\n")),
             # -- round 4: the repaired defect D70 must be caught if it returns
             ("r4_self_count_product_in_count_dtype", product_in_count_dtype("self")),
             ("r4_2w_count_product_in_count_dtype", product_in_count_dtype("2w")),
